@@ -31,7 +31,7 @@ RULE = ("random programs: trees of config.set contexts, nest depth 1-5, 0-4 sett
 CLAUSES = ["restored-after-exit", "restored-after-exception-exit", "restored-final", "new-keys-removed",
            "inner-exit-restores-own-entry", "internal-context-monitored"]
 QUICK = dict(n=4000, time=40)
-THOROUGH = dict(n=60000, time=120, shards=16)
+THOROUGH = dict(n=480000, time=480, shards=16)
 
 # typed schema: dict = section (only ever holds dicts), None = leaf (only ever holds non-dict values)
 SCHEMA = {
